@@ -1592,7 +1592,8 @@ class Parameter(_ParameterBase):
             refs = obj._param__private.refs
             if ref is not None:
                 obj.param._update_ref(name, ref)
-            elif name in refs and not syncing:
+            elif name in refs and not syncing and not obj.param._TRIGGER:
+                # (param.trigger re-assigns the current value: not an override)
                 obj.param._update_ref(name, None)
             if is_async or val is Undefined:
                 return
